@@ -94,6 +94,31 @@ GenCmpLit  == "CmpLit" \in En /\ \E s \in Senses, a \in Handles, l \in ScalarLit
                  K(a, {"S", "V", "E", "MVP"}) /\ Recent(a) /\ (sw => s # "==")
                  /\ Do(CL(IF sw THEN "RCmpLit" ELSE "CmpLit", a, s, l))
 
+MSl == 1..Len(SliceTab)
+GenMGet    == "MGet" \in En /\ \E a \in Handles, k \in 0..3, i \in Indices \cup MSl, j \in Indices \cup MSl :
+                 /\ K(a, {"M"}) /\ Recent(a)
+                 /\ (k \in {0, 1} => i \in Indices) /\ (k \in {2, 3} => i \in MSl)
+                 /\ (k \in {0, 2} => j \in Indices) /\ (k \in {1, 3} => j \in MSl)
+                 /\ Do(CI("MGet", a, i, j, k))
+GenTranspose == "Transpose" \in En /\ \E a \in Handles : K(a, {"M", "ME", "V"}) /\ Recent(a) /\ Do(C2("Transpose", a, 0, ""))
+GenDiagonal == "Diagonal" \in En /\ \E a \in Handles, k \in {0, 1} : K(a, {"M"}) /\ Recent(a) /\ Do(CI("Diagonal", a, 0, 0, k))
+GenTrace   == "Trace" \in En /\ \E a \in Handles, k \in {0, 1} : K(a, {"M"}) /\ Recent(a) /\ Do(CI("Trace", a, 0, 0, k))
+GenFrob    == "Frobenius" \in En /\ \E a \in Handles : K(a, {"M"}) /\ Recent(a) /\ Do(C2("Frobenius", a, 0, ""))
+GenMBin    == "MBin" \in En /\ \E op \in VOps, a \in Handles, b \in Handles :
+                 K(a, {"M", "ME"}) /\ K(b, {"M", "ME"}) /\ (Recent(a) \/ Recent(b)) /\ Do(C2("MBin", a, b, op))
+GenMBinLit == "MBinLit" \in En /\ \E op \in VOps, a \in Handles, l \in ScalarLits \cup ArrayLits, sw \in BOOLEAN :
+                 K(a, {"M", "ME"}) /\ Recent(a) /\ Do(CL(IF sw THEN "MRBinLit" ELSE "MBinLit", a, op, l))
+GenMNeg    == "MNeg" \in En /\ \E a \in Handles : K(a, {"M", "ME"}) /\ Recent(a) /\ Do(C2("MNeg", a, 0, ""))
+GenMatVec  == "MatVec" \in En /\ \E a \in Handles, b \in Handles :
+                 K(a, {"M"}) /\ K(b, {"V", "E", "MVP", "M"}) /\ (Recent(a) \/ Recent(b)) /\ Do(C2("MatVec", a, b, ""))
+GenQuadForm == "QuadForm" \in En /\ \E a \in Handles, l \in {x \in ArrayLits : Is2D(x)} :
+                 K(a, {"V", "E", "MVP"}) /\ Recent(a) /\ Do(CL("QuadForm", a, "", l))
+GenMCmp    == "MCmp" \in En /\ \E sn \in Senses, a \in Handles, b \in Handles :
+                 K(a, {"M", "ME"}) /\ K(b, {"M", "ME"}) /\ (Recent(a) \/ Recent(b)) /\ Do(C2("MCmp", a, b, sn))
+GenMCmpLit == "MCmpLit" \in En /\ \E sn \in Senses, a \in Handles, l \in ScalarLits \cup ArrayLits, sw \in BOOLEAN :
+                 K(a, {"M", "ME"}) /\ Recent(a) /\ (sw => sn # "==")
+                 /\ Do(CL(IF sw THEN "MRCmpLit" ELSE "MCmpLit", a, sn, l))
+
 Init == /\ calls = <<>>
         /\ heap = <<>>
         /\ pred = <<>>
@@ -101,6 +126,8 @@ Next == /\ NCalls < MaxCalls /\ Live
         /\ \/ GenSBin \/ GenSBinLit \/ GenSNeg \/ GenFn \/ GenVFn \/ GenIndex \/ GenSlice
            \/ GenVBin \/ GenVBinLit \/ GenVNeg \/ GenSum \/ GenDot \/ GenLinComb \/ GenNorm
            \/ GenCmp \/ GenCmpLit
+           \/ GenMGet \/ GenTranspose \/ GenDiagonal \/ GenTrace \/ GenFrob \/ GenMBin \/ GenMBinLit \/ GenMNeg
+           \/ GenMatVec \/ GenQuadForm \/ GenMCmp \/ GenMCmpLit
 
 (* ---- spec-internal invariants about the newest object ---- *)
 Top == FH[HL]
